@@ -70,6 +70,18 @@ def run(cx):
     ok_p = len(proc_del) == 1 and proc_del[0][1][0] == "param" and proc_del[0][1][2] == "pid"
     cx.ob("C17.R2", "remove_proc:tasks", ok_t, "exactly the ids of the rows returned by that query are deleted from the task collection", f.loc())
     cx.ob("C17.R2", "remove_proc:proc", ok_p, "then the process row with the given pid is deleted", f.loc())
+    # the selection reaches every row of the process: one unbounded query, or - if it is paged - pages that never
+    # advance an offset (deleting the rows of a page shifts the survivors down: an advancing offset skips them)
+    lim = [x for x in f.calls() if x.q.endswith("Query::set_limit")]
+    off = [x for x in f.calls() if x.q.endswith("Query::set_offset")]
+    adv = [x for x in off if not (pv.root(f, x.args[1])[0] == "const" and pv.root(f, x.args[1])[1].get("int") == "0")]
+    qs = [x for x in f.calls() if x.kind == "virtual" and x.q.endswith("DbCollection::query")]
+    from rules.c16 import natural_loops
+    in_loop = any(x.b in body for x in qs for _, body in natural_loops(f))
+    ok_all = (not lim and not off and not in_loop) or (lim and in_loop and not adv)
+    cx.ob("C17.R2", "remove_proc:every-row", bool(ok_all),
+          "remove_proc reaches every task row of the process: one query without limit / offset%s" % (
+              "" if ok_all else " - but it pages the deletion%s" % (" with an offset that advances (line %s) over rows that have just been deleted: the survivors that moved into the freed positions are skipped and stay in the store" % adv[0].line if adv else " in a way the rule does not know")), (adv or lim or qs or [None])[0].loc if (adv or lim or qs) else f.loc())
     touched = sorted(set(colls.values()))
     cx.ob("C17.R2", "remove_proc:collections", touched == ["procs", "tasks"], "remove_proc touches only the task and process collections (found %s): message and event records stay" % touched, f.loc())
     # model removal
@@ -96,7 +108,7 @@ def run(cx):
     cx.ob("C17.R2", "model_rm:events", len(ev_del) == 1 and ev_del[0][1][0] == "call" and ev_del[0][1][3][-1:] == ("id",), "exactly the returned event rows are deleted", g.loc())
     cx.ob("C17.R2", "model_rm:model", len(md_del) == 1 and md_del[0][1][0] == "param" and md_del[0][1][2] == "id", "then the model with the given id", g.loc())
     cx.ob("C17.R2", "model_rm:collections", sorted(set(colls.values())) == ["events", "models"], "removing a model touches only events and models (found %s)" % sorted(set(colls.values())), g.loc())
-    cx.floor("C17.R2", 8)
+    cx.floor("C17.R2", 9)
 
     # ---- R3 -------------------------------------------------------------------------------------
     lp = m.one("^" + re.escape(STORE) + r"load_proc$")
